@@ -1787,6 +1787,10 @@ def val_method(it, v, name, args, kw, node):
             return K(r)
         if name == 'join' and isinstance(v.v, (str, bytes)) and args:
             items = it.iterate(args[0])
+            if items is not None:
+                from .rope import MemView, SymBuf
+                items = [x.v.rope.simplify() if isinstance(x, K) and isinstance(x.v, SymBuf) else
+                         (x.rope_value(it) if isinstance(x, MemView) else x) for x in items]
             if items is not None and all(isinstance(x, K) for x in items):
                 try:
                     return K(v.v.join(x.v for x in items))
